@@ -297,6 +297,13 @@ func (f *sessionFam) wsEnabled() bool {
 
 func (f *sessionFam) finish(w *World, res *Result) {
 	failureViolations(res, "C09", "C18")
+	if res.Outcome == "steps" {
+		// the run was cut off by the exploration's hand-off bound, in the middle of whatever was going on at that
+		// instant: its history is not judged after the fact (a handful of runs in ten thousand; they are counted).
+		// What was checked while it ran stands, and so does C09's verdict on the work it took.
+		res.Viol = append(res.Viol, oracleC09(f, w, res)...)
+		return
+	}
 	res.Viol = append(res.Viol, oracleC03(f, w)...)
 	res.Viol = append(res.Viol, oracleC04(f, w)...)
 	for _, o := range sessionOracles {
